@@ -144,6 +144,10 @@ type tsGen struct {
 	ts   int64
 	seq  map[int]int
 	ties bool // cross-partition ties allowed (all partitions draw from one clock that may stand still)
+	// lag: every partition has its own clock (non-decreasing per partition), so that an append to one partition
+	// can carry timestamps OLDER than events of another partition that are still pending in a held cursor
+	lag bool
+	pts map[int]int64
 }
 
 func (g *tsGen) batch(rng *vh.Rng, part, n int) write {
@@ -154,6 +158,25 @@ func (g *tsGen) batch(rng *vh.Rng, part, n int) write {
 		g.ts = 10
 	}
 	w := write{Part: part}
+	if g.lag {
+		if g.pts == nil {
+			g.pts = map[int]int64{}
+		}
+		cur, ok := g.pts[part]
+		if !ok {
+			cur = 10 + int64(rng.Intn(4))
+		}
+		for i := 0; i < n; i++ {
+			cur += int64(rng.PickI([]int{0, 1, 1, 2, 3, 7}))
+			w.Evs = append(w.Evs, rdh.Ev{Lbl: part*100000 + g.seq[part], Ts: cur, Keep: rng.Chance(3, 5)})
+			g.seq[part]++
+		}
+		g.pts[part] = cur
+		if cur > g.ts {
+			g.ts = cur
+		}
+		return w
+	}
 	for i := 0; i < n; i++ {
 		step := int64(rng.PickI([]int{0, 0, 1, 1, 1, 2, 3}))
 		if !g.ties && step == 0 && i == 0 {
@@ -655,7 +678,7 @@ type phist struct {
 func genPHist(rng *vh.Rng, chunkSize int, i int) phist {
 	h := phist{ChunkSize: chunkSize, Where: rng.Chance(2, 5), Rpc: rng.Bool(), Start: rng.PickS([]string{"", "", "head"})}
 	np := rng.PickI([]int{1, 1, 1, 2, 2, 3, 4})
-	g := &tsGen{ties: rng.Bool()}
+	g := &tsGen{ties: rng.Bool(), lag: np >= 2 && rng.Chance(2, 5)}
 	emptyStart := rng.Chance(1, 14)
 	nb := rng.Range(np, np+5)
 	total := 0
@@ -1417,6 +1440,125 @@ func sectionResend(rng *vh.Rng) {
 	res.Done(sec)
 }
 
+
+// ---------------------------------------------------------------------------------------------
+// select: api.Select (the client-side paging loop) in limited mode
+
+type selCase struct {
+	Events int  `json:"events"` // one partition with this many events (every third dropped by WHERE)
+	Where  bool `json:"where"`
+	Limit  int  `json:"limit"`
+	Rpc    bool `json:"rpc"`
+}
+
+type backendQuerier struct{ srv *lrsrv.Srv }
+
+func (b backendQuerier) Query(ctx context.Context, req *api.QueryRequest, res *api.QueryResult) error {
+	rq := *req
+	r, err := b.srv.Querier.Query(ctx, &rq)
+	if err == io.EOF && r != nil {
+		err = nil
+	}
+	if err != nil {
+		return err
+	}
+	*res = *r
+	return nil
+}
+
+func runSelect(srv *lrsrv.Srv, w *rdh.World, c selCase, sec *vh.Section, verbose bool) {
+	var want []int
+	for _, e := range w.Parts[0].Evs {
+		if rdh.Matches(e, c.Where, nil) && len(want) < c.Limit {
+			want = append(want, e.Lbl)
+		}
+	}
+	var got []int
+	pages := 0
+	var err error
+	var q api.Querier = backendQuerier{srv}
+	if c.Rpc {
+		q = srv.Client
+	}
+	ok := vh.WithTimeout(60*time.Second, func() {
+		ctx, cancel := context.WithTimeout(context.Background(), 60*time.Second)
+		defer cancel()
+		err = api.Select(ctx, q, &api.QueryRequest{Query: w.Query(c.Where, nil), Limit: c.Limit}, false, func(r *api.QueryResult) {
+			pages++
+			for _, e := range r.Events {
+				got = append(got, rdh.ParseMsg(e.Message))
+			}
+		})
+	})
+	key := ""
+	if c.Limit > 1 {
+		key = fmt.Sprint(c)
+	}
+	res.Eval(sec, key)
+	res.Dist(sec, fmt.Sprintf("pages=%s", bucket(pages)))
+	if verbose {
+		fmt.Printf("select limit=%d where=%v: got %d events in %d pages, want %d, err=%v\n", c.Limit, c.Where, len(got), pages, len(want), err)
+	}
+	if !ok {
+		res.SpecFail(vh.SpecFailure{Section: "select", Kind: "hang", Input: c, Impl: "no answer in 60 s", Spec: "returns", What: "api.Select did not return"})
+		return
+	}
+	same := err == nil && len(got) == len(want)
+	for i := 0; same && i < len(got); i++ {
+		same = got[i] == want[i]
+	}
+	if !same {
+		kind := "missing-event"
+		if len(got) > len(want) {
+			kind = "too-many-events"
+		}
+		res.SpecFail(vh.SpecFailure{Section: "select", Kind: kind, Input: c, Impl: fmt.Sprintf("%d events in %d pages (err=%v), last %v", len(got), pages, err, tailInts(got, 3)),
+			Spec: fmt.Sprintf("%d events, last %v", len(want), tailInts(want, 3)),
+			What: "api.Select with a total limit does not deliver the first min(limit, matching) events exactly once in stored order"})
+	}
+}
+
+func tailInts(xs []int, n int) []int {
+	if len(xs) > n {
+		return xs[len(xs)-n:]
+	}
+	return xs
+}
+
+func sectionSelect(rng *vh.Rng) {
+	sec := res.Section("select", "spec-search",
+		"api.Select (the client loop that follows NextQueryRequest until its total limit is used up) in limited mode over one partition with 10 050 events (QueryMaxLimit + 50), through the RPC client and through backend.Querier, with and without WHERE, total limits 1, 7, 9 999, 10 000, 10 001, 10 050, 12 000 and a random one: the server clamps every page to QueryMaxLimit, the client must go on until it has limit events or an empty page. SPEC: exactly the first min(limit, matching) events in stored order; non-trivial = limit > 1")
+	srv, err := lrsrv.Start(lrsrv.NewDir(), lrsrv.Opts{MaxChunkSize: 60000})
+	if err != nil {
+		res.Fatal(args.Out, "select: %v", err)
+	}
+	defer func() { srv.Stop(); os.RemoveAll(srv.Dir) }()
+	w := rdh.NewWorld(srv, newGrp())
+	var evs []rdh.Ev
+	for k := 0; k < 10050; k++ {
+		evs = append(evs, rdh.Ev{Lbl: k, Ts: int64(10 + k/3), Keep: k%3 != 2})
+	}
+	if err := w.Write(0, evs); err != nil {
+		res.Fatal(args.Out, "select: %v", err)
+	}
+	srv.FlushWait()
+	var cs []selCase
+	loadCorpus("select", func(raw json.RawMessage, _ string) {
+		var c selCase
+		if json.Unmarshal(raw, &c) == nil && c.Limit > 0 {
+			cs = append(cs, c)
+		}
+	})
+	for _, l := range []int{1, 7, 9999, 10000, 10001, 10050, 12000, rng.Range(2, 13000)} {
+		cs = append(cs, selCase{Events: 10050, Limit: l, Rpc: rng.Bool()})
+		cs = append(cs, selCase{Events: 10050, Limit: l, Where: true, Rpc: rng.Bool()})
+	}
+	for _, c := range cs {
+		runSelect(srv, w, c, sec, false)
+	}
+	res.Done(sec)
+}
+
 // ---------------------------------------------------------------------------------------------
 
 func replay(path string) {
@@ -1445,6 +1587,23 @@ func replay(path string) {
 		var h phist
 		json.Unmarshal(rp.Input, &h)
 		runPHists([]phist{h}, sec, true)
+	case "select":
+		var c selCase
+		json.Unmarshal(rp.Input, &c)
+		srv, err := lrsrv.Start(lrsrv.NewDir(), lrsrv.Opts{MaxChunkSize: 60000})
+		if err != nil {
+			res.Fatal(args.Out, "select: %v", err)
+		}
+		w := rdh.NewWorld(srv, newGrp())
+		var evs []rdh.Ev
+		for k := 0; k < c.Events; k++ {
+			evs = append(evs, rdh.Ev{Lbl: k, Ts: int64(10 + k/3), Keep: k%3 != 2})
+		}
+		w.Write(0, evs)
+		srv.FlushWait()
+		runSelect(srv, w, c, sec, true)
+		srv.Stop()
+		os.RemoveAll(srv.Dir)
 	case "resend":
 		var c resend
 		json.Unmarshal(rp.Input, &c)
@@ -1481,6 +1640,7 @@ func main() {
 	sectionScripted(rng.Fork("scripted"))
 	sectionJIter(rng.Fork("jiter"))
 	sectionResend(rng.Fork("resend"))
+	sectionSelect(rng.Fork("select"))
 	sectionPaging(rng.Fork("paging"))
 	res.Write(args.Out)
 }
